@@ -1,7 +1,522 @@
+import MythVerif.Model.WsQueue
+import MythVerif.Model.WsQueueTso
 import Driver.Util
-/-! `drv_wsq`: stub, to be filled in -/
+import Std.Data.HashSet
+/-! `drv_wsq`: the work-stealing queue models behind three line protocols.
+
+* `drv_wsq seq <size>` – sequential model; one op per line (`push T | pop | take | wtake A | peek |
+  wpeek | trypass T | pass T | put T | clear | dump | reset`), one canonical output line each;
+  diffed against `harness/wsq_seq.c`.
+* `drv_wsq accept <size>` – trace acceptor for the SC machine.  Input = event traces of the real
+  code under the schedule controller of `harness/wsq_conc.c`:
+  `RUN id` / `C part op arg` / `E part point value tag` / `F part strength` / `R part value` / `END id`.
+  Every `E` must be the enabled model step of that participant with the same point name and the
+  same observed value; `F` events must be exactly the fences the model expects after the last step
+  (`fencesAfter`); `R` must be the model's return value.  Answers `ok <steps>` or `MISMATCH …` per run.
+* `drv_wsq tso …` – executable x86-TSO model with the fence positions as a parameter (violation
+  search for missing-fence changes), see `Model/WsQueueTso.lean`. -/
 namespace Driver.Wsq
-def run (_args : List String) : IO UInt32 := do
-  IO.eprintln "drv_wsq: not implemented"
-  return 2
+open MythVerif MythVerif.Wsq
+
+/-! ## sequential protocol -/
+
+def showRes : Res → String
+  | .unit => "-"
+  | .val none => "0"
+  | .val (some x) => s!"{x}"
+  | .ok true => "ok1"
+  | .ok false => "ok0"
+  | .abort => "abort"
+  | .diverge => "diverge"
+  | .assertFail => "assert"
+
+def showQ (q : Q) : String :=
+  s!"top={q.top} base={q.base} wc={q.cache.getD 0}"
+
+def parseOp : List String → Option Op
+  | ["push", t] => t.toNat?.map .push
+  | ["pop"] => some .pop
+  | ["take"] => some .take
+  | ["wtake", a] => a.toNat?.map (fun a => .wtake (a != 0))
+  | ["peek"] => some .peek
+  | ["wpeek"] => some .wpeek
+  | ["trypass", t] => t.toNat?.map .trypass
+  | ["pass", t] => t.toNat?.map .pass
+  | ["put", t] => t.toNat?.map .put
+  | ["clear"] => some .clear
+  | _ => none
+
+def dumpQ (q : Q) : String :=
+  let n := (q.top - q.base).toNat
+  "slots" ++ String.join ((List.range n).map (fun (k : Nat) => s!" {(q.ptr (q.base + (k : Int))).getD 0}"))
+
+def seqStepLine (size : Int) (q : Q) (line : String) : Q × String :=
+  match Driver.words line with
+  | ["dump"] => (q, dumpQ q)
+  | ["reset"] => (Q.init size, "reset " ++ showQ (Q.init size))
+  | ws =>
+    match parseOp ws with
+    | some op =>
+      let (q', r) := exec q op
+      (q', showRes r ++ " " ++ showQ q')
+    | none => (q, "bad-op")
+
+def runSeq (size : Int) : IO UInt32 := do
+  let stdin ← IO.getStdin
+  let _ ← Driver.forLines stdin (Q.init size) fun q line => do
+    let (q', out) := seqStepLine size q line
+    IO.println out
+    pure q'
+  return 0
+
+/-! ## SC trace acceptor -/
+
+def tagOf (r : Option Elem) : Int := (r.getD 0 : Nat)
+
+def casObs (s : St) : String × Int × Int :=
+  ("cas", (match s.lock with | .free => 1 | _ => 0), 0)
+
+/-- point name, observed value and element tag the owner's next step must show -/
+def obsO (s : St) : Option (String × Int × Int) :=
+  match s.opc with
+  | .idle | .aborted | .assertFail => none
+  | .pu0 e => some ("pu0", s.top, e)
+  | .pul _ | .pol _ | .ptl _ | .cll => some (casObs s)
+  | .pub e => some ("pub", s.base, e)
+  | .pum e off => some ("pum", off, e)
+  | .pus e off => some ("pus", s.top + off, e)
+  | .puv e off => some ("puv", s.base + off, e)
+  | .pux _ _ | .po6 _ | .po9 | .pt9 | .cl3 => some ("unl", 0, 0)
+  | .pu1 e t => some ("pu1", t, e)
+  | .pu2 e t => some ("pu2", t + 1, e)
+  | .pq => some ("pq", if s.top ≤ s.base then 0 else 1, 0)
+  | .po1 => some ("po1", s.top - 1, 0)
+  | .po2 _ => some ("po2", s.base, 0)
+  | .po3 t _ => some ("po3", t, tagOf (s.ptr t))
+  | .po4 _ => some ("po4", s.base, 0)
+  | .po5 t _ => some ("po5", t, tagOf (s.ptr t))
+  | .po5b t _ => some ("po5b", t, 0)
+  | .po5c t _ => some ("po5c", if t ≤ s.base then 1 else 0, 0)
+  | .po5d _ => some ("po5d", 0, 0)
+  | .po7 => some ("po7", s.size / 2, 0)
+  | .po8 => some ("po8", s.size / 2, 0)
+  | .pt1 e => some ("pt1", s.base, e)
+  | .pt2 e => some ("pt2", if s.top = s.size then -1 else (s.size - s.top + 1) / 2, e)
+  | .pt3 e off => some ("pt3", off, e)
+  | .pt4 e off => some ("pt4", s.top + off, e)
+  | .pt5 e off => some ("pt5", s.base + off, e)
+  | .pt7 e b => some ("pt7", b - 1, e)
+  | .pt8 e b => some ("pt8", b - 1, e)
+  | .cl1 => some ("cl1", s.size / 2, 0)
+  | .cl2 => some ("cl2", s.base, 0)
+
+def qcObs (name : String) (s : St) (t : Int) : String × Int × Int :=
+  (name, if t - s.base ≤ 0 then 0 else 1, 0)
+
+def obsT (s : St) (p : Pid) : Option (String × Int × Int) :=
+  match s.tpc p with
+  | .idle => none
+  | .tq0 => some ("tq0", s.top, 0)
+  | .tq1 t => some (qcObs "tq1" s t)
+  | .tkl | .wtl | .tpl _ | .vl => some (casObs s)
+  | .tk1 => some ("tk1", s.base, 0)
+  | .tk2 _ => some ("tk2", s.top, 0)
+  | .tk3 b _ => some ("tk3", b, tagOf (s.ptr b))
+  | .tk4 _ | .tk6 | .wk4u _ | .wk6 | .tp4 _ | .vu => some ("unl", 0, 0)
+  | .tk5 b => some ("tk5", b, 0)
+  | .wq0 => some ("wq0", s.top, 0)
+  | .wq1 t => some (qcObs "wq1" s t)
+  | .wk1 => some ("wk1", s.base, 0)
+  | .wk2 _ => some ("wk2", s.top, 0)
+  | .wk3 b => some ("wk3", b, tagOf (s.ptr b))
+  | .wkd _ r => some ("wkd", -1, tagOf r)          -- the verdict is an input, taken from the event
+  | .wk4 _ => some ("wk4", 0, 0)
+  | .wk5 b => some ("wk5", b, 0)
+  | .tp1 e => some ("tp1", s.base, e)
+  | .tp2 e b => some ("tp2", b - 1, e)
+  | .tp3 e _ => some ("tp3", s.base - 1, e)
+  | .kq0 => some ("kq0", s.top, 0)
+  | .kq1 t => some (qcObs "kq1" s t)
+  | .pk1 => some ("pk1", s.base, 0)
+  | .pk2 _ => some ("pk2", s.top, 0)
+  | .pk3 b => some ("pk3", b, tagOf (s.ptr b))
+  | .vq0 => some ("vq0", s.top, 0)
+  | .vq1 t => some (qcObs "vq1" s t)
+  | .vc0 => some ("vc0", if s.cache.isSome then 1 else 0, 0)
+  | .vc1 => some ("vc1", if s.cache.isSome then 1 else 0, 0)
+  | .vk1 => some ("vk1", s.base, 0)
+  | .vk2 _ => some ("vk2", s.top, 0)
+  | .vk3 b => some ("vk3", b, tagOf (s.ptr b))
+  | .vk4 _ r => some ("vk4", 0, tagOf r)
+  | .vk5 b => some ("vk5", b, 0)
+  | .vr => some ("vr", 0, tagOf s.cache)
+
+/-- fences the code executes between the point of the step `pc → pc'` and the participant's next
+    point: `F` = hardware fence / locked instruction (`xchg`), `c` = compiler barrier only
+    (`myth_wbarrier` under `MYTH_BARRIER_CILK`).  These are the model's fence positions. -/
+def fencesAfterO : OPc → OPc → String
+  | .pu0 _, _ => "F"                      -- myth_wsqueue_rbarrier after `t = q->top`
+  | .pul _, .pub _ => "F"                 -- rwbarrier of a successful trylock
+  | .puv _ _, _ => "F"                    -- rwbarrier of unlock
+  | .pu1 _ _, _ => "c"                    -- wbarrier between slot store and top store
+  | .po1, _ => "F"                        -- rwbarrier after the store of top
+  | .pol _, .po4 _ => "F"
+  | .po5c _ _, .po5d _ => "cc"            -- two wbarriers of the cache invalidation
+  | .po5c _ _, .po6 _ => "F"
+  | .po5d _, _ => "F"
+  | .po8, _ => "F"
+  | .ptl _, .pt1 _ => "F"
+  | .pt8 _ _, _ => "F"
+  | .cll, .cl1 => "F"
+  | .cl2, _ => "F"
+  | _, _ => ""
+
+def fencesAfterT : TPc → TPc → String
+  | .tkl, .tk1 => "F"
+  | .tk1, _ => "F"
+  | .tk2 _, .tk3 _ _ => "F"               -- rbarrier before the slot read
+  | .tk3 _ _, _ => "F"
+  | .tk5 _, _ => "F"
+  | .wtl, .wk1 => "F"
+  | .wk1, _ => "F"
+  | .wkd _ _, .wk4 _ => "cc"
+  | .wkd _ _, .wk5 _ => "c"
+  | .wk4 _, _ => "F"
+  | .wk5 _, _ => "F"
+  | .tpl _, .tp1 _ => "F"
+  | .tp1 _, .tp4 _ => "F"
+  | .tp2 _ _, _ => "c"
+  | .tp3 _ _, _ => "F"
+  | .pk2 _, .pk3 _ => "F"
+  | .vc0, .vr => "FF"                     -- the two rbarriers of the seqlock read
+  | .vl, .vc1 => "F"
+  | .vc1, .vu => "F"
+  | .vk1, _ => "F"
+  | .vk3 _, _ => "cc"
+  | .vk4 _ _, _ => "c"
+  | .vk5 _, _ => "F"
+  | .vu, _ => "FF"
+  | _, _ => ""
+
+/-- value returned to the caller when the step from `pc` ends the operation -/
+def retO (s : St) : Int :=
+  match s.opc with
+  | .po3 t _ => tagOf (s.ptr t)
+  | .po6 r => tagOf r
+  | _ => 0
+
+def retT (s : St) (p : Pid) : Int :=
+  match s.tpc p with
+  | .tk4 r | .wk4u r => tagOf r
+  | .tp4 ok => if ok then 1 else 0
+  | .pk3 b => tagOf (s.ptr b)
+  | .vr => tagOf s.cache
+  | _ => 0
+
+structure Acc where
+  s : St
+  pendO : String := ""
+  pendT : Pid → String := fun _ => ""
+  retO : Int := 0
+  retT : Pid → Int := fun _ => 0
+  steps : Nat := 0
+  err : Option String := none
+  line : Nat := 0
+
+def Acc.fail (a : Acc) (msg : String) : Acc :=
+  if a.err.isSome then a else { a with err := some s!"line {a.line}: {msg}" }
+
+def isIdleO : OPc → Bool
+  | .idle => true
+  | _ => false
+def isIdleT : TPc → Bool
+  | .idle => true
+  | _ => false
+
+def accCall (a : Acc) (part : Nat) (op : String) (arg : Nat) : Acc :=
+  let lbl : Option Lbl :=
+    if part = 0 then
+      match op with
+      | "push" => some (.oPush arg) | "pop" => some .oPop | "put" => some (.oPut arg) | "clear" => some .oClear
+      | _ => none
+    else
+      let p := part - 1
+      match op with
+      | "take" => some (.tTake p) | "wtake" => some (.tWTake p) | "trypass" => some (.tPass p arg)
+      | "peek" => some (.tPeek p) | "wpeek" => some (.tWPeek p)
+      | _ => none
+  match lbl with
+  | none => a.fail s!"unknown call {op} by participant {part}"
+  | some l =>
+    let pend := if part = 0 then a.pendO else a.pendT (part - 1)
+    if pend ≠ "" then a.fail s!"participant {part}: model expects fences '{pend}' before the next call, impl executed none"
+    else match step a.s l with
+      | some s' => { a with s := s' }
+      | none => a.fail s!"call {op} not enabled for participant {part} (an operation is still in progress in the model)"
+
+def accEvent (a : Acc) (part : Nat) (name : String) (v tag : Int) : Acc :=
+  if part = 0 then
+    if a.pendO ≠ "" then a.fail s!"owner: model expects fences '{a.pendO}' before point {name}, impl executed none" else
+    match obsO a.s with
+    | none => a.fail s!"owner event {name} but the model's owner is idle or dead"
+    | some (n, ev, et) =>
+      if n ≠ name then a.fail s!"owner: model is at point {n}, impl reports {name}"
+      else if ev ≠ v ∨ et ≠ tag then a.fail s!"owner at {n}: model expected value {ev} tag {et}, impl observed {v} tag {tag}"
+      else match step a.s .o with
+        | none => a.fail s!"owner at {n}: model step disabled"
+        | some s' =>
+          { a with s := s', steps := a.steps + 1, pendO := fencesAfterO a.s.opc s'.opc,
+                   retO := if isIdleO s'.opc then retO a.s else a.retO }
+  else
+    let p := part - 1
+    if a.pendT p ≠ "" then a.fail s!"participant {part}: model expects fences '{a.pendT p}' before point {name}, impl executed none" else
+    match obsT a.s p with
+    | none => a.fail s!"participant {part} event {name} but the model's participant is idle"
+    | some (n, ev, et) =>
+      if n ≠ name then a.fail s!"participant {part}: model is at point {n}, impl reports {name}"
+      else
+        let isD := n == "wkd"
+        if (¬ isD ∧ ev ≠ v) ∨ et ≠ tag then
+          a.fail s!"participant {part} at {n}: model expected value {ev} tag {et}, impl observed {v} tag {tag}"
+        else
+          let l : Lbl := if isD then .tDecide p (v != 0) else .t p
+          match step a.s l with
+          | none => a.fail s!"participant {part} at {n}: model step disabled"
+          | some s' =>
+            { a with s := s', steps := a.steps + 1,
+                     pendT := upd a.pendT p (fencesAfterT (a.s.tpc p) (s'.tpc p)),
+                     retT := if isIdleT (s'.tpc p) then upd a.retT p (retT a.s p) else a.retT }
+
+def accFence (a : Acc) (part : Nat) (strength : Int) : Acc :=
+  let pend := if part = 0 then a.pendO else a.pendT (part - 1)
+  let c : Char := if strength = 1 then 'F' else 'c'
+  match pend.toList with
+  | [] => a.fail s!"participant {part}: impl executed a fence ({c}) where the model has none"
+  | x :: rest =>
+    if x ≠ c then a.fail s!"participant {part}: impl fence kind {c}, model expects {x}"
+    else if part = 0 then { a with pendO := String.ofList rest }
+    else { a with pendT := upd a.pendT (part - 1) (String.ofList rest) }
+
+def accRet (a : Acc) (part : Nat) (v : Int) : Acc :=
+  let pend := if part = 0 then a.pendO else a.pendT (part - 1)
+  if pend ≠ "" then a.fail s!"participant {part}: model expects fences '{pend}' before the return, impl executed none"
+  else if part = 0 then
+    if ¬ isIdleO a.s.opc then a.fail "owner returned but the model's operation is not finished"
+    else if a.retO ≠ v then a.fail s!"owner: model returns {a.retO}, impl returned {v}"
+    else { a with retO := 0 }
+  else
+    let p := part - 1
+    if ¬ isIdleT (a.s.tpc p) then a.fail s!"participant {part} returned but the model's operation is not finished"
+    else if a.retT p ≠ v then a.fail s!"participant {part}: model returns {a.retT p}, impl returned {v}"
+    else { a with retT := upd a.retT p 0 }
+
+def accLine (size : Int) (a : Acc) (line : String) : Acc × Option String :=
+  let a := { a with line := a.line + 1 }
+  match Driver.words line with
+  | ["RUN", _] => ({ s := init size, line := a.line }, none)
+  | ["END", id] =>
+    let msg := match a.err with
+      | some e => s!"MISMATCH run {id} {e}"
+      | none => s!"ok {id} steps={a.steps} A={a.s.A.length} retd={a.s.retd.length} ins={a.s.ins.length}"
+    (a, some msg)
+  | ["C", p, op, arg] =>
+    match p.toNat?, arg.toNat? with
+    | some p, some arg => (if a.err.isSome then a else accCall a p op arg, none)
+    | _, _ => (a.fail "bad C line", none)
+  | ["E", p, name, v, tag] =>
+    match p.toNat?, v.toInt?, tag.toInt? with
+    | some p, some v, some tag => (if a.err.isSome then a else accEvent a p name v tag, none)
+    | _, _, _ => (a.fail "bad E line", none)
+  | ["F", p, k] =>
+    match p.toNat?, k.toInt? with
+    | some p, some k => (if a.err.isSome then a else accFence a p k, none)
+    | _, _ => (a.fail "bad F line", none)
+  | ["R", p, v] =>
+    match p.toNat?, v.toInt? with
+    | some p, some v => (if a.err.isSome then a else accRet a p v, none)
+    | _, _ => (a.fail "bad R line", none)
+  | [] => (a, none)
+  | _ => (a, none)          -- other harness lines (oracle data) are not for the acceptor
+
+def runAccept (size : Int) : IO UInt32 := do
+  let stdin ← IO.getStdin
+  let _ ← Driver.forLines stdin ({ s := init size } : Acc) fun a line => do
+    let (a', out) := accLine size a line
+    match out with
+    | some o => IO.println o
+    | none => pure ()
+    pure a'
+  return 0
+
+end Driver.Wsq
+
+namespace Driver.WsqTso
+open MythVerif MythVerif.WsqTso
+open MythVerif.Wsq (Elem Pid Holder retOpt)
+
+/-! ## x86-TSO machine: bounded exhaustive search with the fence positions as a parameter -/
+
+inductive Cmd where
+  | push (e : Elem) | pop | take
+  deriving Repr
+
+structure Cfg where
+  s : St
+  oscr : List Cmd            -- owner's remaining script
+  tscr : List (List Cmd)     -- remaining scripts of participants 0..k-1
+
+def stoKey : Sto → List Int
+  | .top v => [1, v]
+  | .base v => [2, v]
+  | .ptr i x => [3, i, (x.getD 0 : Nat), if x.isSome then 1 else 0]
+  | .unlock => [4]
+
+def optKey (x : Option Elem) : List Int := [(x.getD 0 : Nat), if x.isSome then 1 else 0]
+
+def opcKey : OPc → List Int
+  | .idle => [0] | .stuck => [1] | .pu0 e => [2, e] | .pu0f e t => [3, e, t] | .pu1 e t => [4, e, t]
+  | .pu2 e t => [5, e, t] | .pq => [6] | .po1 => [7] | .pof t => [8, t] | .po2 t => [9, t]
+  | .po3 t x => [10, t, x] | .pol t => [11, t] | .po4 t => [12, t] | .po5 t x => [13, t, x]
+  | .po5b t r => [14, t] ++ optKey r | .po6 r => 15 :: optKey r | .po7 => [16] | .po8 => [17] | .po9 => [18]
+
+def tpcKey : TPc → List Int
+  | .idle => [0] | .tq0 => [1] | .tq1 t => [2, t] | .tkl => [3] | .tk1 => [4] | .tkf b => [5, b]
+  | .tk2 b => [6, b] | .tk3 b x => [7, b, x] | .tk4 r => 8 :: optKey r | .tk5 b => [9, b] | .tk6 => [10]
+
+def lockKey : Holder → Int
+  | .free => 0 | .owner => 1 | .thief p => 2 + p
+
+def cmdKey : Cmd → Int
+  | .push e => 100 + e | .pop => 1 | .take => 2
+
+/-- canonical key of the concrete part of a configuration (slots `0..size-1`, `k` participants) -/
+def Cfg.key (c : Cfg) : List Int :=
+  let s := c.s
+  let n := s.size.toNat
+  let k := c.tscr.length
+  [s.top, s.base, lockKey s.lock] ++
+  ((List.range n).map (fun (i : Nat) => optKey (s.ptr (i : Int)))).flatten ++ [-1] ++
+  (s.bufO.map stoKey).flatten ++ [-2] ++ opcKey s.opc ++ [-3] ++
+  ((List.range k).map (fun p => (s.bufT p).map stoKey |>.flatten |>.append (-4 :: tpcKey (s.tpc p)))).flatten ++ [-5] ++
+  s.retd.map (fun (e : Elem) => ((e : Nat) : Int)) ++ [-6] ++ c.oscr.map cmdKey ++ [-7] ++
+  (c.tscr.map (fun l => l.map cmdKey ++ [-8])).flatten
+
+def showLbl : Lbl → String
+  | .oPush e => s!"owner:call-push({e})" | .oPop => "owner:call-pop" | .o => "owner:step" | .flushO => "owner:FLUSH"
+  | .tTake p => s!"thief{p}:call-take" | .t p => s!"thief{p}:step" | .flushT p => s!"thief{p}:FLUSH"
+
+/-- successors: (label, configuration) -/
+def Cfg.succ (c : Cfg) : List (Lbl × Cfg) :=
+  let s := c.s
+  let own : List (Lbl × Cfg) :=
+    match s.opc with
+    | .idle =>
+      (match c.oscr with
+       | .push e :: rest => (match step s (.oPush e) with | some s' => [(.oPush e, { c with s := s', oscr := rest })] | none => [])
+       | .pop :: rest => (match step s .oPop with | some s' => [(.oPop, { c with s := s', oscr := rest })] | none => [])
+       | _ => [])
+    | _ => (match step s .o with | some s' => [(.o, { c with s := s' })] | none => [])
+  let fo : List (Lbl × Cfg) := match step s .flushO with | some s' => [(.flushO, { c with s := s' })] | none => []
+  let th : List (Lbl × Cfg) := ((List.range c.tscr.length).map fun p =>
+    let run : List (Lbl × Cfg) :=
+      match s.tpc p with
+      | .idle =>
+        (match c.tscr[p]? with
+         | some (.take :: rest) =>
+           (match step s (.tTake p) with | some s' => [(.tTake p, { c with s := s', tscr := c.tscr.set p rest })] | none => [])
+         | _ => [])
+      | _ => (match step s (.t p) with | some s' => [(.t p, { c with s := s' })] | none => [])
+    let fl : List (Lbl × Cfg) := match step s (.flushT p) with | some s' => [(.flushT p, { c with s := s' })] | none => []
+    run ++ fl).flatten
+  own ++ fo ++ th
+
+/-- a failed spin-lock CAS leaves the configuration unchanged: such self-loops are skipped by the
+    visited set.  Terminal = no successor except self-loops. -/
+def Cfg.done (c : Cfg) : Bool :=
+  c.oscr.isEmpty && c.tscr.all (·.isEmpty) &&
+  (match c.s.opc with | .idle => true | .stuck => true | _ => false) &&
+  (List.range c.tscr.length).all (fun p => match c.s.tpc p with | .idle => true | _ => false) &&
+  c.s.bufO.isEmpty && (List.range c.tscr.length).all (fun p => (c.s.bufT p).isEmpty)
+
+/-- the property oracle on a terminal configuration: everything inserted is either still in the
+    slots `[base, top)` or was returned, exactly once -/
+def Cfg.verdict (c : Cfg) : Option String :=
+  let s := c.s
+  let left := ((List.range (s.top - s.base).toNat).map fun (k : Nat) => s.ptr (s.base + (k : Int)))
+  let leftE := left.filterMap id
+  let all := leftE ++ s.retd
+  if left.any (·.isNone) then some s!"empty slot inside [base,top): base={s.base} top={s.top}"
+  else
+    match s.ins.find? (fun e => all.count e ≠ 1) with
+    | some e => some (if all.count e = 0 then s!"element {e} LOST (inserted, never returned, not in the queue)"
+                      else s!"element {e} DUPLICATED ({all.count e} times among returned {s.retd} + left {leftE})")
+    | none =>
+      match all.find? (fun e => ¬ s.ins.contains e) with
+      | some e => some s!"element {e} returned but never inserted"
+      | none => none
+
+structure Search where
+  seen : Std.HashSet (List Int) := {}
+  states : Nat := 0
+  bad : Option (String × List Lbl) := none
+
+partial def dfs (limit : Nat) (c : Cfg) (path : List Lbl) (st : Search) : Search :=
+  if st.bad.isSome || st.states ≥ limit then st else
+  let k := c.key
+  if st.seen.contains k then st else
+  let st := { st with seen := st.seen.insert k, states := st.states + 1 }
+  let st := if c.done then
+      match c.verdict with
+      | some msg => { st with bad := some (msg, path.reverse) }
+      | none => st
+    else st
+  c.succ.foldl (fun st (l, c') => dfs limit c' (l :: path) st) st
+
+def parseCmds (w : String) : List Cmd :=
+  (w.splitOn ",").filterMap fun x =>
+    if x == "pop" then some Cmd.pop
+    else if x == "take" then some Cmd.take
+    else if x.startsWith "push" then (x.drop 4).toNat?.map Cmd.push
+    else none
+
+def parseCfg (w : String) : FenceCfg :=
+  -- four characters 0/1: pushRb popFence takeFence unlockFence
+  let b (i : Nat) : Bool := (w.toList.getD i '1') == '1'
+  ⟨b 0, b 1, b 2, b 3⟩
+
+/-- `drv_wsq tso <size> <fences> <limit> <ownerscript> <thiefscript>*`
+    e.g. `tso 4 1011 200000 push1,pop take` -/
+def runCli (args : List String) : IO UInt32 := do
+  match args with
+  | size :: fences :: limit :: oscr :: tscrs =>
+    let n : Int := size.toInt?.getD 4
+    let cfg := parseCfg fences
+    let c : Cfg := { s := init cfg n, oscr := parseCmds oscr, tscr := tscrs.map parseCmds }
+    let r := dfs (limit.toNat?.getD 100000) c [] {}
+    match r.bad with
+    | some (msg, path) =>
+      IO.println s!"VIOLATION states={r.states} {msg}"
+      IO.println ("trace " ++ " ".intercalate (path.map showLbl))
+      return 0
+    | none =>
+      IO.println s!"ok states={r.states} exhausted={decide (r.states < limit.toNat?.getD 100000)}"
+      return 0
+  | _ =>
+    IO.eprintln "usage: drv_wsq tso <size> <fences:4x0/1> <limit> <ownerscript> <thiefscript>*"
+    return 2
+
+
+end Driver.WsqTso
+
+namespace Driver.Wsq
+
+def run (args : List String) : IO UInt32 := do
+  match args with
+  | ["seq", n] => runSeq (n.toInt?.getD 8)
+  | ["accept", n] => runAccept (n.toInt?.getD 8)
+  | "tso" :: rest => Driver.WsqTso.runCli rest
+  | _ =>
+    IO.eprintln "usage: drv_wsq seq <size> | accept <size> | tso <size> <fences> <bound> <scenario>"
+    return 2
+
 end Driver.Wsq
